@@ -190,8 +190,14 @@ def run_configs(P):
                     try:
                         with dask.config.set(scheduler=sname, **({"num_workers": nw} if nw else {})):
                             r = fn(lazy)
+                            declared = {k: str(v.dtype) for k, v in (r.data_vars.items() if isinstance(r, xr.Dataset) else [("__da__", r)])}
                             r = r.compute()
                         d = norm(r)
+                        for k, dt in declared.items():
+                            if k in e and dt != e[k]["dtype"]:
+                                fail(op, "the dask-backed result announces dtype %s before it is computed, the in-memory result is %s (%s)" % (dt, e[k]["dtype"], k),
+                                     order=order, chunking=cname, scheduler=sname, workers=nw)
+                                break
                     except Exception as ex:  # noqa
                         fail(op, "dask-backed call raised %s: %s" % (type(ex).__name__, str(ex)[:300]), order=order, chunking=cname, scheduler=sname, workers=nw)
                         continue
